@@ -116,11 +116,11 @@ def classify(res, fns, unit_name='unit'):
             f['where'] = 'ensures'
         else:
             for (a, b, prim, _) in f['spans']:
-                if not prim:
-                    continue
                 for L in cand.get('inner_labels', []):
                     if L['span'][0] <= a < L['span'][1]:
                         lab = L['label']
+                        if L['label'] not in labs:
+                            labs.append(L['label'])
             f['where'] = 'body'
         f['label'] = lab
         f['labels'] = labs or ([lab] if lab else [])
@@ -141,13 +141,50 @@ def match_fn_time(times, fn, unit='unit'):
     return None
 
 
+def _compile_error_fns(res, fns):
+    """functions (main variant, with bodies) that contain the primary span of a compile error;
+    None when some error lies outside every extracted function body"""
+    hit = set()
+    for d in res['diags']:
+        if d.get('level') != 'error' or d.get('message', '').startswith('aborting due to'):
+            continue
+        msg = d.get('message', '')
+        if any(m in msg for m in VERIFICATION_MSGS) and d.get('code') is None:
+            continue
+        if any(m in msg for m in RLIMIT_MSGS):
+            continue
+        pr = _primary(d)
+        if pr is None:
+            return None
+        owner = None
+        for fn in fns:
+            if fn['external_body']:
+                continue
+            if fn['out_span'][0] <= pr['byte_start'] < fn['out_span'][1]:
+                owner = fn
+        if owner is None:
+            return None
+        hit.add(f'{owner["mod"]}::{owner["name"]}')
+    return hit
+
+
 def run_world(world, features=(), threads=8, verus_extra=()):
-    outdir, meta = assemble(world, features)
-    with ThreadPoolExecutor(2) as ex:
-        f_main = ex.submit(run_verus, os.path.join(outdir, 'unit.rs'), threads, 40, verus_extra)
-        f_reach = ex.submit(run_verus, os.path.join(outdir, 'unit_reach.rs'), threads, 2, verus_extra)
-        main = f_main.result()
-        reach = f_reach.result()
-    cm = classify(main, meta['fns'])
-    cr = classify(reach, meta['reach_fns'])
+    force = set()
+    for attempt in range(3):
+        outdir, meta = assemble(world, features, force_stub=force)
+        with ThreadPoolExecutor(2) as ex:
+            f_main = ex.submit(run_verus, os.path.join(outdir, 'unit.rs'), threads, 40, verus_extra)
+            f_reach = ex.submit(run_verus, os.path.join(outdir, 'unit_reach.rs'), threads, 2, verus_extra)
+            main = f_main.result()
+            reach = f_reach.result()
+        cm = classify(main, meta['fns'])
+        cr = classify(reach, meta['reach_fns'])
+        if cm['compile_errors'] and main['json'] is not None:
+            # isolate: a function whose (changed) body no longer type-checks in the verified subset is
+            # replaced by its assumed contract, and everything that does not depend on it is still decided
+            bad = _compile_error_fns(main, meta['fns'])
+            if bad and not bad <= force:
+                force |= bad
+                continue
+        break
     return {'outdir': outdir, 'meta': meta, 'main': main, 'reach': reach, 'cm': cm, 'cr': cr}
